@@ -20,7 +20,7 @@ NA = {
  "C18": "pure functions of two texts",
 }
 
-PENDING = {k: "simulation check designed (DESIGN.md section 3) but not built yet in this commit; not claimed until it runs" for k in ["C08"]}
+PENDING = {}
 
 def check(pid, category, text, note, technique, design_ref):
     return {
@@ -52,6 +52,9 @@ CHECKS = {
  "C19": check("C19", "exploration",
     "Seeded search over generated corpora on 2-4 letter alphabets (overlapping pairs such as 'aaa'/'abab', repeated words, corpora exhausted before the requested number of merges), vocab sizes / special-token counts / normalisation / max_lines_per_file, trained by the real train_bpe with 0..4 counting threads in separate simulated processes under seeded schedules and per-process hash keys (which decide ties among maximal pairs). The emitted table is read back and re-derived step by step by an independent recount of adjacent-pair frequencies from scratch (any maximal pair accepted, branching on ambiguous concatenations), ids must be exactly 0..n-1 with n <= requested, and a BPETokenizer built from the file must be lossless and vocabulary-consistent on the corpus. Termination (no deadlock on the count channel) is required for every thread count.",
     TRUST + " The reference obtains the words of a line through the library's pure functions clean/normalize/count_words_whitespace.", "deterministic simulation: seeded schedules x thread counts x simulated OS entropy over real train_bpe, independent greedy-BPE recount as oracle", "DESIGN.md 3 (C19)"),
+ "C08": check("C08", "exploration",
+    "Seeded search over histories of the real TrainLoader (driven through the guarded Rust driver that makes the calls the Python binding makes): generated jsonl files whose items carry unique ids, pipeline configurations (whitespace / spelling corruption with a characters file that has frequency ties, switch, chain, substrings, three tasks, token masking / clipping), loader options (strategy, shuffle, sort, prefetch, batch limit and type, seed, epoch, skip, limit). Every loader instance is its own simulated process with its own thread schedule and OS entropy: a reference instance is compared with the same configuration under other (num_threads, buffer_size) (batch-for-batch identical), with all ranks of a world of 2-4 (disjoint, union equal, each item identical, rank positions), with a skip=k / limit=k split, and with a crash (loader dropped mid-epoch at an arbitrary schedule point) followed by a restart with fast_forward(k) in a fresh process, optionally distributed. The oracle is metamorphic (streams of the implementation compared with each other by item id), so no seed-derivation formula is baked in.",
+    TRUST + " A defect that changes every stream in the same way is invisible to a metamorphic oracle. Order-sensitive clauses are judged only when no line/item was dropped on the way.", "deterministic simulation: loader instances as simulated processes (seeded schedules, simulated OS entropy, crash/restart with fast_forward) over the real TrainLoader; metamorphic stream comparison by item id", "DESIGN.md 3 (C08)"),
 }
 
 def main():
